@@ -37,6 +37,9 @@ func init() {
 			"In addition one HTTPS GET per point of that projection goes through the *http.Client returned by TLSClient (PRNG-chosen listener and verdict; quick = a PRNG-chosen tenth of the points), judged like a handshake (signatures end in @TLSClient). " +
 			"Server-name vocabulary (a separate sub-workload, not a lattice dimension): " + fmt.Sprint(len(nameVariants)) + " spellings a normalisation would change (upper case, trailing dot, port, IPv4/IPv6 literal, blanks, IDN/punycode, wildcard, single label) " +
 			"x insecure x {no identity, loaded EC pair} x {no roots, LoadedCA, pool} = " + fmt.Sprint(len(variantPoints())) + " points, inspected through all three entry points, plus a handshake by either route against S1 where CA1 is trusted. " +
+			"Material encodings (a separate sub-workload, not lattice dimensions): PKCS#8 key files (EC, RSA), one file holding certificate and key (named by both Certificate and Key, or paired with the plain files), a certificate file of leaf + intermediate with its key, and three mismatching pairs of those, " +
+			"each without roots and with LoadedCA = " + fmt.Sprint(len(encodingPoints())) + " points, inspected through all three entry points (the whole certificate chain of the config is compared), plus a handshake by either route against S1 where CA1 is trusted (the whole chain the listener received is compared). " +
+			"TLSTransport and TLSClient are also inspected on the 8 points {callback, tickets, cache} with every other slot unset. " +
 			"non-trivial = a lattice point with at least one option set (distinct by lattice index), and each executed handshake (distinct by lattice index x listener x verdict)",
 		Assumptions: []string{
 			"a key supplied without any certificate is not judged for the error (nothing to present, no identity is dropped); if a config is returned it must carry no client certificate",
@@ -47,6 +50,8 @@ func init() {
 			"Go's system root store is replaced, per worker process, by one minted CA (SSL_CERT_FILE / SSL_CERT_DIR), so that 'the system pool' is a known set; evidence note system_pool_pinned counts the workers where that took effect. A worker where it did not take effect evaluates nothing: the run then stays below the coverage floor (the whole lattice) and ends INCONCLUSIVE",
 			"the HTTPS GET is answered by the listeners with a minimal '204' response; a GET that fails although both ends completed the handshake is not judged (the statement is about the TLS configuration)",
 			"the handshake oracle trusts crypto/x509 Verify and crypto/tls of the Go toolchain; the client dials with tls.Dial, which fills an empty ServerName from the dialled host (127.0.0.1), as net/http does",
+			"a worker whose hand-made TLS 1.0/1.1 client cannot complete a handshake with the legacy listener (harness self-check) evaluates nothing: the downgrade probe would be vacuous, the run ends INCONCLUSIVE (note legacy_listener_selfcheck_failed)",
+			"the supplied client certificate is the whole content of the certificate slot: one certificate for the lattice's material (the config's chain and the chain received by the listener must have exactly that one entry), leaf + intermediate for the chain file of the encodings sub-workload",
 			"a handshake in which either side hits the 15 s watchdog deadline is retried once and then counted as class hs-watchdog; it is never judged",
 		},
 		MinNontrivial: latticeSize() - 1, // exhaustive: every non-trivial point of the lattice must have been inspected
@@ -182,6 +187,64 @@ type Case struct {
 	Via    string `json:"via,omitempty"`    // handshake route: "" = TLSClientAuth + tls.Dial | TLSClient = HTTPS GET through the returned *http.Client
 	// NameVariant marks a point of the server-name sub-workload: Point.ServerName is free text (not a lattice value)
 	NameVariant bool `json:"name_variant,omitempty"`
+	// Encoding marks a point of the material-encodings sub-workload: Point.CertFile / Point.KeyFile name files outside the lattice
+	Encoding bool `json:"encoding,omitempty"`
+}
+
+// ---- material encodings (a separate small sub-workload, NOT lattice dimensions) ----
+
+// fileIdentity names the key pair a certificate or key file belongs to. The lattice's own slot contents are their
+// own identity; the extra files of the sub-workload are other ENCODINGS of the same usable material: a PKCS#8 key
+// file, one file holding certificate and key, and a certificate file of leaf plus intermediate ("chain": a pair of its own).
+func fileIdentity(name string) string {
+	switch name {
+	case "ec-pkcs8", "ec-combined":
+		return "ec"
+	case "rsa-pkcs8":
+		return "rsa"
+	}
+	return name
+}
+
+func isEncodingFile(name string) bool { return fileIdentity(name) != name || name == "chain" }
+
+// encodingPoints: usable material in the other encodings (the same configuration is owed as for the plain files),
+// two mismatching pairs built from them (an error is owed), each without roots and with LoadedCA = CA one.
+func encodingPoints() []Point {
+	pairs := [][2]string{{"ec", "ec-pkcs8"}, {"rsa", "rsa-pkcs8"}, {"ec-combined", "ec-combined"}, {"ec-combined", "ec"}, {"ec", "ec-combined"},
+		{"chain", "chain"}, {"rsa", "ec-pkcs8"}, {"chain", "ec-pkcs8"}, {"ec-combined", "chain"}}
+	var out []Point
+	for _, pr := range pairs {
+		for _, ca := range []string{"", "ca1"} {
+			out = append(out, Point{CertFile: pr[0], KeyFile: pr[1], LoadedCA: ca})
+		}
+	}
+	return out
+}
+
+// wantIdentity gives the leaf and the whole chain (leaf first) the configuration is owed to carry and present.
+func wantIdentity(id string, mat *material) (leaf *x509.Certificate, chain [][]byte) {
+	switch id {
+	case "rsa":
+		return mat.rsaCert, [][]byte{mat.rsaCert.Raw}
+	case "ec":
+		return mat.ecCert, [][]byte{mat.ecCert.Raw}
+	case "chain":
+		return mat.chainCert, [][]byte{mat.chainCert.Raw, mat.interCert.Raw}
+	}
+	return nil, nil
+}
+
+func sameChain(a, b [][]byte) bool {
+	if len(a) != len(b) {
+		return false
+	}
+	for i := range a {
+		if !bytes.Equal(a[i], b[i]) {
+			return false
+		}
+	}
+	return true
 }
 
 // ---- server-name vocabulary (a separate small sub-workload, NOT a lattice dimension) ----
@@ -340,10 +403,10 @@ func expect(p Point) expectation {
 			e.idErr, e.idReason = true, "key-file-unreadable"
 		case p.KeyFile == "garbage":
 			e.idErr, e.idReason = true, "key-file-garbage"
-		case p.KeyFile != p.CertFile:
+		case fileIdentity(p.KeyFile) != fileIdentity(p.CertFile):
 			e.idErr, e.idReason = true, "key-file-mismatch"
 		default:
-			e.idWant = p.CertFile
+			e.idWant = fileIdentity(p.CertFile)
 		}
 	case p.LoadedCert != "":
 		// "If this field is set, LoadedKey is also required."
@@ -485,13 +548,7 @@ func inspect(p Point, cfg *tls.Config, err error, h *handles, mat *material, ent
 		}
 	} else {
 		// client identity
-		var want *x509.Certificate
-		switch e.idWant {
-		case "rsa":
-			want = mat.rsaCert
-		case "ec":
-			want = mat.ecCert
-		}
+		want, wantChain := wantIdentity(e.idWant, mat)
 		switch {
 		case want == nil:
 			if len(cfg.Certificates) != 0 || cfg.GetClientCertificate != nil || cfg.GetCertificate != nil {
@@ -501,6 +558,9 @@ func inspect(p Point, cfg *tls.Config, err error, h *handles, mat *material, ent
 			add("client-cert-silently-dropped/usable-"+e.idClass, "usable certificate and key supplied (%s) but the config carries no client certificate", e.idClass)
 		case len(cfg.Certificates) != 1 || len(cfg.Certificates[0].Certificate) == 0 || !bytes.Equal(cfg.Certificates[0].Certificate[0], want.Raw):
 			add("client-cert-different/"+e.idClass, "the config carries %d certificate(s) whose leaf is not the supplied %s certificate", len(cfg.Certificates), e.idWant)
+		case !sameChain(cfg.Certificates[0].Certificate, wantChain):
+			// "presents exactly the supplied client certificate": the chain is the supplied certificate(s), nothing added or lost
+			add("client-cert-chain-differs/"+e.idClass, "the certificate entry of the config holds %d certificate(s) after the right leaf, the supplied material holds %d", len(cfg.Certificates[0].Certificate)-1, len(wantChain)-1)
 		case cfg.GetClientCertificate != nil:
 			add("client-cert-callback-installed/"+e.idClass, "GetClientCertificate is set and would override the supplied certificate")
 		default:
@@ -627,6 +687,7 @@ type worker struct {
 	m         *mon.M
 	mat       *material
 	srv       map[string]*server
+	legacyOK  bool // the legacy listener completed a TLS <= 1.1 handshake with a hand-made client (self-check of the harness)
 	minimised map[string]int
 }
 
@@ -709,7 +770,7 @@ func (w *worker) inspectPoint(p Point, entry string) (ok bool) {
 			}
 			return false
 		})
-		m.Violate(sig, detail, &Case{Point: &mp, Entry: entry, NameVariant: nameClass(mp.ServerName) != ""})
+		m.Violate(sig, detail, &Case{Point: &mp, Entry: entry, NameVariant: nameClass(mp.ServerName) != "", Encoding: isEncodingFile(mp.CertFile) || isEncodingFile(mp.KeyFile)})
 	}
 	if m.WantSample() {
 		m.Sample(map[string]interface{}{"case": &Case{Point: &p, Entry: entry}, "error": fmt.Sprint(err), "findings": len(fs), "expected": describe(expect(p))})
@@ -741,6 +802,14 @@ func (p Point) wrapperProjection() bool {
 	return p.Callback == "" && !p.TicketsDisabled && !p.SessionCache
 }
 
+// sessionSubLattice: the 8 points {callback, tickets, cache} with every other slot unset; the wrappers are inspected
+// on them too, so that a wrapper that rebuilds the configuration from selected fields loses no session setting unseen.
+func (p Point) sessionSubLattice() bool {
+	q := p
+	q.Callback, q.TicketsDisabled, q.SessionCache = "", false, false
+	return q == Point{}
+}
+
 func (p Point) handshakeProjection() bool { return !p.TicketsDisabled && !p.SessionCache }
 
 var serverKinds = []string{"s0", "s1", "s2", "legacy"}
@@ -765,7 +834,7 @@ func (w *worker) sweep(from, to, step int, handshakes bool) {
 		if !p.trivial() {
 			m.NT(fmt.Sprintf("cfg|%d", idx))
 		}
-		if p.wrapperProjection() {
+		if p.wrapperProjection() || p.sessionSubLattice() {
 			w.inspectPoint(p, "TLSTransport")
 			w.inspectPoint(p, "TLSClient")
 		}
@@ -828,12 +897,46 @@ func run(m *mon.M) {
 		return
 	}
 	defer w.stopServers()
+	if !w.legacyOK {
+		// The downgrade probe ("never negotiates below TLS 1.2", seen at a TLS <= 1.1-only peer) would be vacuous without
+		// the run saying so: like for the system-pool pin, the worker evaluates NOTHING, the merged run stays below the
+		// coverage floor and is reported INCONCLUSIVE instead of "held".
+		fmt.Fprintln(os.Stderr, "C18: a hand-made TLS 1.0/1.1 client could not complete a handshake with the legacy listener (the toolchain no longer speaks TLS <= 1.1?): nothing is evaluated, the run is inconclusive")
+		return
+	}
 	step := m.NShards
 	if step <= 0 {
 		step = 1
 	}
 	w.sweep(m.Shard, latticeSize(), step, true)
 	w.nameVariantsWorkload(m.Shard, step)
+	w.encodingsWorkload(m.Shard, step)
+}
+
+// encodingsWorkload inspects every point of the material-encodings sub-workload through the three entry points and
+// runs, where CA one is trusted and a configuration is returned, one handshake per route against listener s1, which
+// records the whole chain the client presents.
+func (w *worker) encodingsWorkload(shard, step int) {
+	m := w.m
+	for i, p := range encodingPoints() {
+		if i%step != shard {
+			continue
+		}
+		p := p
+		m.Begin(&Case{Point: &p, Encoding: true})
+		ok := w.inspectPoint(p, "TLSClientAuth")
+		w.inspectPoint(p, "TLSTransport")
+		w.inspectPoint(p, "TLSClient")
+		m.NT(fmt.Sprintf("encoding|%s+%s|%d", p.CertFile, p.KeyFile, i))
+		m.Class("material-encoding:" + p.CertFile + "+" + p.KeyFile)
+		if ok && p.LoadedCA == "ca1" {
+			for _, via := range []string{"", "TLSClient"} {
+				m.Begin(&Case{Point: &p, Server: "s1", Via: via, Encoding: true})
+				w.handshake(p, "s1", false, via)
+				m.NT(fmt.Sprintf("encoding-hs|%s+%s|%d|%s", p.CertFile, p.KeyFile, i, via))
+			}
+		}
+	}
 }
 
 // nameVariantsWorkload inspects every (name variant x insecure x identity x roots) point through the three
@@ -895,6 +998,15 @@ func replay(m *mon.M, raw json.RawMessage) {
 		probe := *c.Point
 		if c.NameVariant {
 			probe.ServerName = "" // free text in the server-name sub-workload; the other slots are lattice values
+		}
+		if c.Encoding || isEncodingFile(probe.CertFile) || isEncodingFile(probe.KeyFile) {
+			// files of the material-encodings sub-workload stand outside the lattice; the other slots are lattice values
+			if isEncodingFile(probe.CertFile) {
+				probe.CertFile = ""
+			}
+			if isEncodingFile(probe.KeyFile) {
+				probe.KeyFile = ""
+			}
 		}
 		if indexOf(probe) < 0 {
 			m.Violate("bad-replay-case", "the point names a slot content that is not part of the lattice", nil)
